@@ -96,6 +96,21 @@ def impl_emit_parse(S):
     return out
 
 
+def impl_emit_file(S):
+    """`json_schema_file` (the file-writing wrapper): what it writes, read back with `json.load`."""
+    import cdd.class_.parse  # noqa: F401
+    from cdd.json_schema.emit import json_schema_file
+
+    with tempfile.TemporaryDirectory() as td:
+        fn = os.path.join(td, "out.schema.json")
+        try:
+            json_schema_file({"F": g.to_py_ir(S)}, fn)
+            with open(fn) as f:
+                return {"loaded": g.to_wire(json.load(f))}
+        except Exception as e:  # noqa
+            return {"raises": core.exc_name(e)}
+
+
 def impl_parse_wire(w):
     import cdd.class_.parse  # noqa: F401
 
@@ -246,10 +261,49 @@ def oracle_static(S, r):
         if typ_view(g.render_typ(sr["typ"])) != typ_view(pr["typ"]):
             fails.append(({"kind": "roundtrip", "field": "returns-typ"}, "return typ %r → %r" % (g.render_typ(sr["typ"]), pr["typ"])))
         if norm_ws(sr["doc"]) != norm_ws(pr["doc"]):
-            fails.append(({"kind": "roundtrip", "field": "returns-doc"}, "return doc %r → %r" % (sr["doc"], pr["doc"])))
+            # word-wrap at 100 columns may break inside a word (after a hyphen, or a word longer than the line)
+            how = "wrap-inserted-whitespace" if isinstance(sr["doc"], str) and isinstance(pr["doc"], str) and "".join(sr["doc"].split()) == "".join(pr["doc"].split()) else "other"
+            fails.append(({"kind": "roundtrip", "field": "returns-doc", "how": how}, "return doc %r → %r" % (sr["doc"], pr["doc"])))
         if pr["extra"]:
             fails.append(({"kind": "roundtrip", "field": "returns-extra-keys"}, "return entry acquired keys %r" % (pr["extra"],)))
     return fails
+
+
+def oracle_validation(S, kind, nm, prop_schema, inst, res):
+    """One observation of the validator (jsonschema in python3-vt) → None or (signature, text)."""
+    if kind == "default" and res is not True:
+        return ({"kind": "default-does-not-validate", "typ": _tk(dict(S["params"])[nm]["typ"])},
+                "%s: default %r does not validate against %r" % (nm, inst, prop_schema))
+    if kind == "member" and res is not True:
+        return ({"kind": "pattern-rejects-member"}, "%s: member %r rejected by %r" % (nm, inst, prop_schema.get("pattern")))
+    if kind.startswith("probe") and res is True:
+        ms = dict(S["params"])[nm]["typ"]["lit"]
+        how = "contains-member" if any(m in inst for m in ms) else "other"
+        return ({"kind": "pattern-accepts-nonmember", "how": how},
+                "%s: %r is not one of %s but validates against pattern %r (re.search: %s)" % (
+                    nm, inst, ms, prop_schema.get("pattern"), re.search(prop_schema.get("pattern", ""), inst) is not None))
+    return None
+
+
+def validation_pairs(S, schema):
+    """(property schema, instance) pairs the oracle observes for one emitted schema → (pairs, sources)."""
+    pairs, src = [], []
+    props = schema.get("properties", {}) if isinstance(schema.get("properties"), dict) else {}
+    for nm, p in S["params"]:
+        ps = props.get(nm)
+        if not isinstance(ps, dict):
+            continue
+        if "default" in ps:
+            pairs.append([ps, ps["default"]])
+            src.append(("default", nm, None))
+        if "lit" in p["typ"]:
+            for m in p["typ"]["lit"]:
+                pairs.append([ps, m])
+                src.append(("member", nm, m))
+            for how, x in pattern_probes(p["typ"]["lit"]):
+                pairs.append([ps, x])
+                src.append(("probe:" + how, nm, x))
+    return pairs, src
 
 
 def _tk(t):
@@ -405,6 +459,7 @@ WITNESSES = [
     ("C06-pattern-unanchored", {"name": "F", "doc": "", "params": [["a", P(lit(["alpha", "beta"]))]], "returns": None}),
     ("C06-none-default-dropped", {"name": "F", "doc": "", "params": [["a", P(base("int", True), None, ["n"])]], "returns": None}),
     ("C06-none-like-str-default-dropped", {"name": "F", "doc": "", "params": [["a", P(base("str"), None, ["s", "None"])]], "returns": None}),
+    ("C06-return-doc-wrapped-inside-word", {"name": "F", "doc": "", "params": [], "returns": {"typ": base("int"), "doc": "a" * 80 + " bbbbbbbb-cccccccc"}}),
 ]
 FIXED = [
     {"name": "F", "doc": "", "params": [], "returns": None},
@@ -482,17 +537,18 @@ def line_coverage(Ss, mutants):
         code = compile(Path(path).read_text(), path, "exec")
         lines = set()
 
-        def walk(c):
-            for _, _, ln in c.co_lines():
-                if ln is not None:
-                    lines.add(ln)
+        def walk(c, top):
+            if not top:
+                for _, _, ln in c.co_lines():
+                    if ln is not None and ln != c.co_firstlineno:
+                        lines.add(ln)
             for k in c.co_consts:
                 if hasattr(k, "co_lines"):
-                    walk(k)
+                    walk(k, False)
 
-        walk(code)
-        body = {ln for ln in lines if ln in hit[f]}
-        out[f] = "%d/%d function-body lines executed" % (len(body), len(lines)) if hit[f] else "0 lines executed (declarations only)"
+        walk(code, True)
+        missed = sorted(lines - hit[f])
+        out[f] = {"function_body_lines": len(lines), "executed": len(lines & hit[f]), "not_executed": missed[:60]}
     return out
 
 
@@ -562,15 +618,15 @@ def run(chk: core.Check) -> int:
         n_in_domain += in_dom
         nontrivial = in_dom and len(S["params"]) >= 2 and any("lit" in p["typ"] for _, p in S["params"]) and any(p["default"] for _, p in S["params"])
         chk.count(("emit", json.dumps(S, sort_keys=True)), nontrivial)
-        if k < 4:
+        if k in (1, 2, len(WITNESSES) + 1, len(WITNESSES) + 2, len(WITNESSES) + 40, len(WITNESSES) + 41):
             chk.sample({"stream": stream, "ir": g.to_py_ir(S) and json.loads(json.dumps(g.to_py_ir(S), default=repr)),
                         "emitted": None if "schema" not in r else g.from_wire(r["schema"]) if not _has_bang(r["schema"]) else "non-JSON"})
-        if m is None or stream == "wrap":
+        if m is None or stream == "wrap" or (stream == "witness" and not in_dom):
             continue
         if "error" in m:
             raise core.HarnessError("c06.emit: %s" % m["error"])
         n_cmp += 1
-        if stream in ("domain", "witness") and not in_dom:
+        if stream == "domain" and not in_dom:
             raise core.HarnessError("generator left the model's domain: %s" % json.dumps(S))
         rtyps = [g.render_typ(p["typ"]) for _, p in S["params"]]
         a = {"raises": True} if "emit_raises" in r else g.canon_schema(r.get("schema")) if "schema" in r else {"no-result": True}
@@ -587,7 +643,7 @@ def run(chk: core.Check) -> int:
     emitted = [(k, g.from_wire(r["schema"])) for k, r in enumerate(impl) if isinstance(r, dict) and "schema" in r and not _has_bang(r["schema"])]
     parse_inputs = []  # (kind, wire, real canon)
     for k, schema in emitted:
-        if cases[k][0] != "wrap":
+        if cases[k][0] == "edge" or (model is not None and model[k].get("in_domain")):  # the description model speaks on its domain only
             parse_inputs.append(("emitted", impl[k]["schema"], impl[k]["parsed"]))
     n_pm = 700 if chk.quick else 12000
     dom_emitted = [(k, s) for k, s in emitted if cases[k][0] == "domain"]
@@ -633,22 +689,17 @@ def run(chk: core.Check) -> int:
         sch_src.append(("mutant", k, ops))
     pairs, pair_src = [], []  # (property schema, instance)
     for k, schema in emitted:
-        S = cases[k][1]
-        props = schema.get("properties", {}) if isinstance(schema.get("properties"), dict) else {}
-        for nm, p in S["params"]:
-            ps = props.get(nm)
-            if not isinstance(ps, dict):
-                continue
-            if "default" in ps:
-                pairs.append([ps, ps["default"]])
-                pair_src.append(("default", k, nm, None))
-            if "lit" in p["typ"] and (cases[k][0] != "edge"):
-                for m in p["typ"]["lit"]:
-                    pairs.append([ps, m])
-                    pair_src.append(("member", k, nm, m))
-                for how, s in pattern_probes(p["typ"]["lit"]):
-                    pairs.append([ps, s])
-                    pair_src.append(("probe:" + how, k, nm, s))
+        if cases[k][0] == "edge":
+            # correspondence only: defaults outside the typed-default domain
+            props = schema.get("properties", {})
+            for nm, ps in props.items():
+                if isinstance(ps, dict) and "default" in ps:
+                    pairs.append([ps, ps["default"]])
+                    pair_src.append(("edge-default", None, nm, None))
+            continue
+        pp, ss = validation_pairs(cases[k][1], schema)
+        pairs += pp
+        pair_src += [(kind, k, nm, x) for kind, nm, x in ss]
     # validates-mutants: property schemas with shuffled type / pattern / instance
     inst_pool = [0, 1, -5, 2 ** 70, 1.0, 0.5, -0.0, 100.0, True, False, None, "", "alpha", "xalphax", "b2", "a b", {}, [], [1], {"a": 1}, "0"]
     for _ in range(1500 if chk.quick else 20000):
@@ -728,20 +779,20 @@ def run(chk: core.Check) -> int:
         fails_by_case[k] = oracle_static(S, r)
         if "schema" in r and k in meta_ok and meta_ok[k] is not True:
             fails_by_case[k].append(({"kind": "invalid-schema", "why": _why(meta_ok[k])}, "check_schema: %s" % meta_ok[k]))
-    for src, (a, b), res in zip(pair_src, pairs, vv):
-        kind, k, nm, s = src
-        if k is None or cases[k][0] == "edge":
+    for (kind, k, nm, x), (a, b), res in zip(pair_src, pairs, vv):
+        if k is None:
             continue
-        if kind == "default" and res is not True:
-            fails_by_case[k].append(({"kind": "default-does-not-validate", "typ": _tk(dict(cases[k][1]["params"])[nm]["typ"])},
-                                     "%s: default %r does not validate against %r" % (nm, b, a)))
-        elif kind == "member" and res is not True:
-            fails_by_case[k].append(({"kind": "pattern-rejects-member"}, "%s: member %r rejected by %r" % (nm, s, a.get("pattern"))))
-        elif kind.startswith("probe:") and res is True:
-            ms = dict(cases[k][1]["params"])[nm]["typ"]["lit"]
-            how = "contains-member" if any(m in s for m in ms) else "other"
-            fails_by_case[k].append(({"kind": "pattern-accepts-nonmember", "how": how},
-                                     "%s: %r is not one of %s but validates against pattern %r (re.search: %s)" % (nm, s, ms, a.get("pattern"), re.search(a.get("pattern", ""), s) is not None)))
+        f = oracle_validation(cases[k][1], kind, nm, a, b, res)
+        if f is not None:
+            fails_by_case[k].append(f)
+    # json_schema_file: the written file is JSON and holds the same schema
+    file_cases = [k for k, (stream, _) in enumerate(cases) if stream == "domain" and "schema" in impl[k]][: (60 if chk.quick else 600)]
+    for k, fr in zip(file_cases, core.guarded_map(impl_emit_file, [cases[k][1] for k in file_cases], per_item_timeout=30.0)):
+        chk.count(("file", k), True)
+        if fr.get("loaded") != impl[k]["schema"]:
+            fails_by_case[k].append(({"kind": "file-output", "how": "raises" if "raises" in fr else "differs"},
+                                     "json_schema_file wrote %s, json_schema returned %s" % (json.dumps(fr)[:300], json.dumps(impl[k]["schema"])[:300])))
+    chk.coverage["json_schema_file_cases"] = len(file_cases)
     for k, fl in fails_by_case.items():
         for sig, what in fl:
             chk.failure(sig, what, {"kind": "ir", "S": cases[k][1]})
@@ -794,35 +845,21 @@ def replay(path: str) -> int:
     fails = oracle_static(S, r)
     if "schema" in r and not _has_bang(r["schema"]):
         schema = g.from_wire(r["schema"])
-        pairs, src = [], []
-        props = schema.get("properties", {}) if isinstance(schema.get("properties"), dict) else {}
-        for nm, p in S["params"]:
-            ps = props.get(nm)
-            if not isinstance(ps, dict):
-                continue
-            if "default" in ps:
-                pairs.append([ps, ps["default"]])
-                src.append(("default", nm, None))
-            if "lit" in p["typ"]:
-                for m in p["typ"]["lit"]:
-                    pairs.append([ps, m])
-                    src.append(("member", nm, m))
-                for how, s in pattern_probes(p["typ"]["lit"]):
-                    pairs.append([ps, s])
-                    src.append(("probe", nm, s))
+        pairs, src = validation_pairs(S, schema)
         vs, vv, _ = run_vt([schema], pairs, nproc=1)
         if vs[0] is not True:
-            fails.append(({"kind": "invalid-schema"}, "check_schema: %s" % vs[0]))
-        for (kind, nm, s), (a, b), res in zip(src, pairs, vv):
-            if kind == "default" and res is not True:
-                fails.append(({"kind": "default-does-not-validate"}, "%s: default %r does not validate against %r" % (nm, b, a)))
-            if kind == "member" and res is not True:
-                fails.append(({"kind": "pattern-rejects-member"}, "%s: member %r rejected" % (nm, s)))
-            if kind == "probe" and res is True:
-                fails.append(({"kind": "pattern-accepts-nonmember"}, "%s: non-member %r validates against pattern %r" % (nm, s, a.get("pattern"))))
-    print("replay C06 on %s" % json.dumps(g.to_py_ir(S), default=repr)[:400])
+            fails.append(({"kind": "invalid-schema", "why": _why(vs[0])}, "check_schema: %s" % vs[0]))
+        for (kind, nm, x), (a, b), res in zip(src, pairs, vv):
+            f = oracle_validation(S, kind, nm, a, b, res)
+            if f is not None:
+                fails.append(f)
+    kf = core.KnownFindings("C06")
+    print("replay C06 on %s" % json.dumps(g.to_py_ir(S), default=repr)[:600])
+    rc = 0
     for sig, what in fails:
-        print("  FAIL %s :: %s" % (json.dumps(sig), what))
+        it = kf.match(sig)
+        print("  %s %s :: %s" % ("known-finding(%s)" % it["id"] if it else "FAIL", json.dumps(sig), what[:300]))
+        rc = rc or (0 if it else 1)
     if not fails:
         print("  property holds on this input")
-    return 1 if fails else 0
+    return rc
